@@ -13,7 +13,7 @@ import time
 
 VERIF = os.path.dirname(os.path.dirname(os.path.abspath(__file__)))
 REPO = os.environ.get("VERIF_REPO", "/repo")
-COQ = os.path.join(VERIF, "coq")
+COQ = os.environ.get("VERIF_COQ", os.path.join(VERIF, "coq"))    # VERIF_COQ: a scratch copy of the development (dev only)
 HARNESS = os.path.join(VERIF, "harness")
 WORKROOT = os.path.join(VERIF, ".work")
 
